@@ -215,11 +215,11 @@ theorem finish_P (hP : Closed P) (s : St) (hs : P s.g) : P (finish s).1.g := by
 /-- the start of a call: the per-call output and Put counter are reset -/
 def Gate.begin (g : Gate) : Gate := { g with puts := 0, out := [] }
 
-theorem removeMarkedBlock_g (s s1 : St) (h : Nat) (he : removeMarkedBlock s h = some s1) : s1.g = s.g := by
-  unfold removeMarkedBlock at he
-  split at he
-  · cases he
-  · split at he <;> (cases he; rfl)
+theorem removeMarkedBlock_g (s : St) (h : Nat) : (removeMarkedBlock s h).g = s.g := by
+  unfold removeMarkedBlock
+  split
+  · rfl
+  · split <;> rfl
 
 theorem call_P (hP : Closed P) (s : St) (e : Ev) (hs : P s.g.begin) :
     P (step s e).1.g ∨ ∃ n after, e = .arm n after ∨ e = .crash ∨ ∃ en, e = .env en := by
@@ -241,10 +241,7 @@ theorem call_P (hP : Closed P) (s : St) (e : Ev) (hs : P s.g.begin) :
     · exact h2
   | unmark h =>
     left; unfold step; simp only
-    split
-    · exact restart_P hP _ (finish_P hP _ hs)
-    · rename_i s1 he
-      exact finish_P hP _ (by rw [removeMarkedBlock_g _ _ _ he]; exact hs)
+    exact finish_P hP _ (by rw [removeMarkedBlock_g]; exact hs)
   | crash => right; exact ⟨0, false, Or.inr (Or.inl rfl)⟩
   | arm n after => right; exact ⟨n, after, Or.inl rfl⟩
   | env en => right; exact ⟨0, false, Or.inr (Or.inr ⟨en, rfl⟩)⟩
